@@ -406,5 +406,5 @@ inst!(mx_top_12, [props=C09 xprops=C14 tier=quick cfg=x86none+x86alloc+x86avx2 t
 inst!(mx_top_34, [props=C09 xprops=C14 tier=thorough cfg=x86none+x86alloc+x86avx2 t=1800 role=config-matrix-bytes uw=byte_by_byte:34;all::memchr::One::count_raw.0:67;all::memchr:10;find_raw.0:3;find_raw.1:4;count_raw.0:3;count_raw.1:4;oracle::count:40], 3,
     matrix::top::<34>());
 #[cfg(any(vcfg_x86none, vcfg_x86alloc, vcfg_x86avx2))]
-inst!(mx_sub_n2, [props=C09 xprops=C14 tier=quick cfg=x86none+x86alloc+x86avx2 t=1800 role=config-matrix-substring uw=@RK;@TWNEW;@TWOFF;with_ranker:6;oracle:6;@PP32], 3,
+inst!(mx_sub_n2, [props=C09 xprops=C14 tier=thorough cfg=x86none+x86alloc+x86avx2 t=1800 role=config-matrix-substring uw=@RK;@TWNEW;@TWOFF;with_ranker:6;oracle:6;@PP32], 3,
     matrix::substring::<2, 8>(0, 8));
